@@ -40,6 +40,35 @@ func checkCompaction(c *Ctx, rule string, fn *ssa.Function) int {
 			c.Pass(rule, key, c.Prog.Pos(good[0].Pos()), "")
 		}
 	}
+	if len(cps) == 0 {
+		// the other way to drop elements: the kept ones are appended to a list of
+		// their own (possibly the prefix of the input's array) and that list is
+		// returned - nothing dropped can reappear
+		n := 0
+		for _, b := range fn.Blocks {
+			ret, ok := b.Instrs[len(b.Instrs)-1].(*ssa.Return)
+			if !ok || len(ret.Results) == 0 {
+				continue
+			}
+			if _, isSlice := ret.Results[0].Type().Underlying().(*types.Slice); !isSlice || IsNilConst(ret.Results[0]) {
+				continue
+			}
+			built := DependsOn(ret.Results[0], func(v ssa.Value) bool {
+				call, ok := v.(*ssa.Call)
+				if !ok {
+					return false
+				}
+				bi, isB := call.Call.Value.(*ssa.Builtin)
+				_, accIsPhi := call.Call.Args[0].(*ssa.Phi)
+				return isB && bi.Name() == "append" && accIsPhi && types.Identical(call.Type(), ret.Results[0].Type())
+			})
+			if built {
+				n++
+				c.Pass(rule, fmt.Sprintf("%s/kept-list#%d", ShortName(fn), n), c.Prog.Pos(ret.Pos()), "the kept elements are appended to the list that is returned")
+			}
+		}
+		return n
+	}
 	return len(cps)
 }
 
